@@ -171,7 +171,20 @@ def run_apalache_job(job, scratch):
 def run_lin_job(job, scratch):
     """Linearizability search: driver 'conc' -> NfsLin.tla. A history is accepted iff the search consumed all its lines."""
     trace = os.path.join(scratch, job["name"] + ".ndjson")
-    cmd = [os.path.join(BIN, "vdrive")] + job["driver"] + ["-out", trace]
+    drv = list(job["driver"])
+    gen_states = 0
+    if job.get("gen"):   # behaviours of a design model printed by TLC in simulation mode, replayed by the driver
+        g = job["gen"]
+        gout, gst = run_tlc(g["module"] + ".tla", g["cfg"] + ".cfg", scratch, workers=1, timeout=600,
+                            extra=["-simulate", "num=%d" % g["num"], "-depth", "90", "-seed", str(g["seed"])])
+        plans = [ln for ln in gout.splitlines() if ln.strip().startswith('"PLAN ')]
+        if not plans:
+            raise Infra("model %s printed no behaviour:\n%s" % (g["module"], gout[-2000:]))
+        pf = os.path.join(scratch, job["name"] + ".plans")
+        open(pf, "w").write("\n".join(plans) + "\n")
+        drv += ["-spec", pf]
+        gen_states = len(plans)
+    cmd = [os.path.join(BIN, "vdrive")] + drv + ["-out", trace]
     t0 = time.time()
     p = subprocess.run(cmd, capture_output=True, text=True, timeout=job.get("driver_timeout", 1800), cwd=scratch)
     if p.returncode != 0:
@@ -182,6 +195,17 @@ def run_lin_job(job, scratch):
         raise Infra("NfsLin search failed on %s:\n%s" % (trace, out[-3000:]))
     lines = open(trace).readlines()
     n = len(lines)
+    replayed = drift = 0
+    for ln in lines:
+        if ln.startswith('{"at":') or '"ev":"protonote"' in ln[:200]:
+            e = json.loads(ln)
+            if e.get("ev") == "protonote":
+                replayed += 1
+                if e["diverged"] or e["diffs"] or e["wedged"]:
+                    drift += 1
+                    log("NOTE model drift in %s plan %s: %s %s (event %d of %d; %s)" % (job["name"], e["plan"], e["diverged"], e["diffs"] or "", e["at"], e["of"], e.get("lastwant", "")))
+    if job.get("gen"):
+        log("%s: %d behaviours of %s replayed on the real server, %d with model drift" % (job["name"], replayed, job["gen"]["module"], drift))
     hw = {}
     starts = {}
     for ln in out.splitlines():
@@ -737,6 +761,18 @@ def design_jobs(module, cfgs_quick, cfgs_thorough, negatives, q):
     return jobs
 
 
+def protoreplay_jobs(q, seed, also=None):
+    """behaviours of FsProto (TLC simulation) replayed on the real server with the lock acquisitions gated into the model's order"""
+    jobs = []
+    for i in range(1 if q else 6):
+        j = {"name": "protoreplay%d" % i, "kind": "lin", "gen": {"module": "FsProtoGen", "cfg": "FsProtoGen", "num": 150 if q else 600, "seed": seed * 10 + i + 1},
+             "driver": ["protoplans", "-part", "0", "-steps", "150" if q else "600"]}
+        if also:
+            j["also"] = also
+        jobs.append(j)
+    return jobs
+
+
 def commitwin_jobs(q, also=None):
     """fourth window family: a victim held inside its commit while others commit; then a crash (NfsLin.FinalCrash)"""
     jobs = []
@@ -891,6 +927,7 @@ def plan(prop, tier, seed, known):
         for k in range(7):   # third family: the inode number is recycled for a new object inside the victim's lock-free window
             jobs.append({"name": "winrecycle%d" % k, "kind": "lin", "also": ["C08"], "driver": ["windows", "-part", "-2", "-parts", "7", "-seed", str(k)]})
         jobs += fsproto_jobs(q, "C03")
+        jobs += protoreplay_jobs(q, seed)
         jobs += commitwin_jobs(q)
         j = probe_job(prop, av)             # client requests against a file whose truncation the (parked) shrinker has not completed
         j["also"] = ["C03"]
@@ -922,6 +959,7 @@ def plan(prop, tier, seed, known):
                                     "-clients", str(3 + i % 2), "-avoid", av]})
         jobs.append(probe_job(prop, av))
         jobs += fsproto_jobs(q, "C06")
+        jobs += protoreplay_jobs(q, seed, ["C06"])
     elif prop == "C14":
         n = 4 if q else 32
         for i in range(n):
